@@ -184,7 +184,7 @@ def _trace_shard(args):
     return r, rej
 
 
-def validate(module, cfg, records, *, shards=8, boundary=None, env=None, timeout=3600, heap="3g", keep=None):
+def validate(module, cfg, records, *, shards=8, boundary=None, env=None, timeout=3600, heap="3g", keep=None, weight=None):
     """Validate a list of JSON-able records against a linear trace spec.
 
     The trace spec reads ndJsonDeserialize(IOEnv.TRACE_FILE), consumes one record per step (variable l),
@@ -230,7 +230,8 @@ def validate(module, cfg, records, *, shards=8, boundary=None, env=None, timeout
     rejects = []
     states = trans = 0
     for k, (r, rej) in enumerate(results):
-        nlines = cuts[k + 1] - cuts[k]
+        # weight(record): number of TLC steps the trace spec takes for that record (default: one)
+        nlines = cuts[k + 1] - cuts[k] if weight is None else sum(weight(rec) for rec in records[cuts[k]:cuts[k + 1]])
         states += r.distinct
         trans += r.generated
         for (li, why) in rej:
